@@ -118,6 +118,73 @@ def assumed_facts(vname, terms, view=None):
     return out
 
 
+def presence_split(d, pcs, facts, mk_fs, kind, data, is_oos=None):
+    """(ok, why) after splitting on the presence of Option cells that occur as `phi(is_some(in.c), .., ..)` in the operand or the
+    guards, or None when there is nothing to split on. Sibling cells `p.a`, `p.b` of one Option-of-struct share their presence."""
+    from .terms import map_term
+    from .vg import TRUE, FALSE, phi as _phi, neg_cond, conj
+    atoms = set()
+    for t in [d] + list(pcs):
+        if isinstance(t, tuple):
+            for x in subterms(t):
+                if x[0] == 'is_some' and isinstance(x[1], tuple) and x[1][0] == 'in':
+                    atoms.add(x[1][1])
+    def grp(a):
+        # sibling cells share their presence only when they are the fields of ONE Option-of-struct cell
+        pre_ = a.rsplit('.', 1)[0] if '.' in a else None
+        return pre_ if (pre_ is not None and is_oos is not None and is_oos(pre_)) else a
+    groups = sorted({grp(a) for a in atoms})
+    if not groups or len(groups) > 2:
+        return None
+    import itertools
+
+    def subst(t, assign):
+        def f(n):
+            if n[0] == 'is_some' and isinstance(n[1], tuple) and n[1][0] == 'in':
+                g = grp(n[1][1])
+                if g in assign:
+                    return TRUE if assign[g] else FALSE
+            if n[0] == 'phi':
+                return _phi(n[1], n[2], n[3])
+            if n[0] == 'op' and n[1] == 'not':
+                return neg_cond(n[2][0])
+            if n[0] == 'op' and n[1] == 'and':
+                return conj(list(n[2]))
+            if n[0] == 'op' and n[1] == 'or':
+                if any(x == TRUE for x in n[2]):
+                    return TRUE
+                rest = [x for x in n[2] if x != FALSE]
+                return FALSE if not rest else (rest[0] if len(rest) == 1 else ('op', 'or', tuple(rest)))
+            if n[0] == 'op' and n[1] in ('eq', 'ne', 'le', 'ge', 'lt', 'gt') and len(n[2]) == 2 and n[2][0] == n[2][1] and n[2][0][0] == 'lit':
+                return TRUE if n[1] in ('eq', 'le', 'ge') else FALSE
+            return n
+        return map_term(t, f) if isinstance(t, tuple) else t
+    all_ok = True
+    whys = []
+    for combo in itertools.product((True, False), repeat=len(groups)):
+        assign = dict(zip(groups, combo))
+        pcs2 = [subst(c, assign) for c in pcs]
+        if any(c == FALSE for c in pcs2):
+            continue        # this presence case cannot reach the site
+        pcs2 = [c for c in pcs2 if c != TRUE]
+        d2 = subst(d, assign)
+        fs = mk_fs(pcs2 + list(facts))
+        r = fs.rng(d2)
+        if kind == 'fdiv':
+            ok = not r.contains_zero()
+        elif kind == 'fdomain':
+            ok = r.positive() if data[0] == 'positive' else (r.lo >= -1.0 and r.hi <= 1.0)
+        elif kind == 'fsqrt':
+            ok = r.nonneg()
+        elif kind == 'range':
+            ok = r.lo >= data[0] and r.hi <= data[1]
+        else:
+            ok = r.positive()
+        whys.append('%s: range %s' % ({True: 'present', False: 'absent'}[combo[0]], r))
+        all_ok = all_ok and ok
+    return all_ok, 'per presence case of the Option cell(s) %s — %s' % (groups, '; '.join(whys))
+
+
 def int_lb_factory(H):
     def lb(t):
         best = 0
@@ -285,6 +352,15 @@ class Ready:
                     what = 'log argument %s' % tstr(d)[:70]
                     need = '> 0'
                 why = 'range %s' % r
+                if not ok:
+                    # cells that live together in one Option (an Option of a struct, presented as one Option cell per field) are
+                    # present or absent together: decide the site once per presence case, with the case substituted into the
+                    # operand and into every guard on the path
+                    r2 = presence_split(d, [c for c in pc if not (isinstance(c, tuple) and c and c[0] == 'inloop')], facts,
+                                        lambda cs_: AllCases(FSign(cs_, int_lb_factory(H), vg.loops, trip_pos).cases()), ev.kind, ev.data,
+                                        is_oos=lambda pre_: bool(vg.oos_names(pre_)))
+                    if r2 is not None:
+                        ok, why = r2
                 if not ok:
                     rendered = tstr(d)
                     for (vn, kind, rx, reason) in EXCEPTIONS:
